@@ -29,7 +29,7 @@ ASSUMPTIONS = [
     "KF-TRANSFORM-MIXED-UNITS; it is not used as a fault",
 ]
 TOLERANCES = {"geometry": "1e-12 * S"}
-FAULT_TYPES = ["transform", "paint", "length", "points", "viewBox", "d", "stroke-width", "href-missing", "href-self", "href-ancestor", "href-cycle"]
+FAULT_TYPES = ["transform", "paint", "length", "points", "viewBox", "d", "stroke-width", "href-missing", "href-self", "href-ancestor", "href-cycle", "svg-zero"]
 MANDATORY_LABELS = {"quick": ["fault:%s" % f for f in FAULT_TYPES] + ["on:shape", "on:container", "on:use", "faults:1", "faults:2+"]}
 MANDATORY_LABELS["thorough"] = MANDATORY_LABELS["quick"]
 
@@ -90,6 +90,18 @@ def decode(d):
         else:
             attr = kind
         faults.append([n["id"], attr, d.choice(BAD[kind]), kind])
+    # a nested svg disabled by a zero size, followed by siblings that use percentages: the state the parser keeps
+    # per viewport (size, inherited values) must come back exactly as it was before the disabled element
+    nested = [(n, parents) for n, parents in nodes if n["tag"] == "svg" and parents and "viewBox" in n["attrs"]]
+    if nested and d.chance(3, 8):
+        n, parents = d.choice(nested)
+        attr, value = d.choice([("width", "abc"), ("height", "0"), ("viewBox", "0 0 0 10"), ("viewBox", "5 5 10 0"), ("width", "0")])
+        faults.append([n["id"], attr, value, "svg-zero"])
+        sibs = parents[-1]["children"]
+        later = [c for c in sibs[sibs.index(n) + 1:] if c["tag"] in ("rect", "ellipse", "line")]
+        for c in later[:2]:
+            key = {"rect": d.choice(["width", "x", "height"]), "ellipse": d.choice(["rx", "cy"]), "line": d.choice(["x2", "y2"])}[c["tag"]]
+            c["attrs"][key] = d.choice(["50%", "25%", "100%", "12.5%"])
     return {"doc": doc, "faults": faults}
 
 
